@@ -26,6 +26,31 @@ pub use rdata::TYPE;
 mod resource_record;
 pub use resource_record::ResourceRecord;
 
+#[cfg(simple_dns_verif)]
+/// verification hooks: crate-private parsers at an arbitrary offset
+pub mod verif_hooks {
+    use super::{Name, ResourceRecord, WireFormat};
+
+    /// Name::parse at `position`, returns the name and the cursor after it
+    pub fn parse_name_at(data: &[u8], position: usize) -> crate::Result<(Name<'_>, usize)> {
+        let mut position = position;
+        let name = Name::parse(data, &mut position)?;
+        Ok((name, position))
+    }
+
+    /// ResourceRecord::parse at `position`, returns the record and the cursor after it
+    pub fn parse_rr_at(data: &[u8], position: usize) -> crate::Result<(ResourceRecord<'_>, usize)> {
+        let mut position = position;
+        let rr = ResourceRecord::parse(data, &mut position)?;
+        Ok((rr, position))
+    }
+
+    /// WireFormat::len of a record (what is written as RDLENGTH + the fixed part + the owner name)
+    pub fn rr_len(rr: &ResourceRecord<'_>) -> usize {
+        rr.len()
+    }
+}
+
 use bitflags::bitflags;
 use std::convert::TryFrom;
 
